@@ -15,7 +15,8 @@ COQ = os.path.join(ROOT, "coq")
 HARNESS = os.path.join(ROOT, "harness")
 CACHE = os.path.join(ROOT, ".cache")
 TARGET = os.path.join(CACHE, "target")
-MVH = os.path.join(TARGET, "debug", "mvh")
+# testing aid only (MECH_REPO): the harness built against a scratch worktree lives under .cache/alt
+MVH = os.path.join(TARGET if os.environ.get("MECH_REPO", "/repo") == "/repo" else os.path.join(CACHE, "alt", "target"), "debug", "mvh")
 EVID = os.path.join(ROOT, "evidence")
 REPLAYS = os.path.join(ROOT, "replays")
 GUARD = "mech_lang_mech_verif"
